@@ -188,10 +188,15 @@ protected:
     //when try_lock fails, we need to register itself to waiting queue (_requests)
     bool subscribe(awaiter *aw) {
         //so subscribe to _requests
-        aw->subscribe(_requests);
-        //now check result of _next, which gives as hint, how lock operation ended
-        //if the _next is null, the lock was unlock
-        if (aw->_next== nullptr) [[likely]] {
+        //remember the previous top as observed by the successful CAS: once aw is
+        //published, unlock() in other thread can rewrite aw->_next (and resume aw)
+        awaiter *prev = _requests.load(std::memory_order_relaxed);
+        do {
+            aw->_next = prev;
+        } while (!_requests.compare_exchange_weak(prev, aw, std::memory_order_release, std::memory_order_relaxed));
+        //now check previous top, which gives as hint, how lock operation ended
+        //if it was null, the lock was unlock
+        if (prev == nullptr) [[likely]] {
             //because current awaiter will be destroyed, we need to replace self
             //with a doorman()
             //the function build_queue does this, even if there is no requests currentl
